@@ -457,7 +457,7 @@ def trace_validation(ctx):
             for pa, pb in pairs:
                 with warnings.catch_warnings():
                     warnings.simplefilter('ignore')
-                    sep = pa.transform_to(pb.frame).separation(pb).deg
+                    sep = pa.transform_to(pb.frame, merge_attributes=False).separation(pb).deg     # the frame read back, with ITS attributes
                 ev['got'].append(int(round(sep / unit_pos * 1000)))
                 ev['half'].append(800 + int(math.ceil(1e-9 / unit_pos * 1000)))        # sqrt(2)/2 unit in two coordinates, plus transform noise
             for nm in ('radius', 'width', 'height', 'inner_radius', 'outer_radius'):
